@@ -314,21 +314,17 @@ theorem methodcall_valid (C : Codec) (K : KeyCodec) (dn : Str) (m obj : Arg) (pa
   · simp only [validTree, Bool.and_eq_true]; exact ⟨⟨rfl, hdoc⟩, hchars⟩
   · simp [header, Xml.attr, bodyMethodName, bodyCall, cimElem, E]
 
-/-- a path without host: its CIMObject form starts with `namespace:classname` -/
-theorem pathUri_prefix (K : KeyCodec) (fuel : Nat) (c : Str) (ns : Option Str) (keys : Option (List Key)) (u : Str)
-    (h : pathUri K fuel (match keys with | some ks => Path.inst c none ns ks | none => Path.cls c none ns) = some u) :
+theorem renderPath_prefix (K : KeyCodec) (rec : Path → Option Str) (c : Str) (ns : Option Str)
+    (keys : Option (List Key)) (u : Str)
+    (h : renderPath K rec (match keys with | some ks => Path.inst c none ns ks | none => Path.cls c none ns) = some u) :
     ((ns.getD []) ++ ':' :: c) <+: u := by
   cases keys with
   | none =>
-    simp only at h
-    unfold pathUri at h
-    simp only [hostSlash, List.nil_append] at h
+    simp only [renderPath, uriHead, hostSlash, List.nil_append] at h
     cases h
     cases ns <;> exact List.prefix_refl _
   | some ks =>
-    simp only at h
-    unfold pathUri at h
-    simp only [hostSlash, List.nil_append] at h
+    simp only [renderPath, uriHead, hostSlash, List.nil_append] at h
     split at h
     · cases h
     · split at h
@@ -337,6 +333,14 @@ theorem pathUri_prefix (K : KeyCodec) (fuel : Nat) (c : Str) (ns : Option Str) (
         split
         · cases ns <;> exact List.prefix_refl _
         · cases ns <;> exact List.prefix_append _ _
+
+/-- a path without host: its CIMObject form starts with `namespace:classname` -/
+theorem pathUri_prefix (K : KeyCodec) (fuel : Nat) (c : Str) (ns : Option Str) (keys : Option (List Key)) (u : Str)
+    (h : pathUri K fuel (match keys with | some ks => Path.inst c none ns ks | none => Path.cls c none ns) = some u) :
+    ((ns.getD []) ++ ':' :: c) <+: u := by
+  cases fuel with
+  | zero => exact renderPath_prefix K _ c ns keys u (by simpa only [pathUri] using h)
+  | succ f => exact renderPath_prefix K _ c ns keys u (by simpa only [pathUri] using h)
 
 /-- InvokeMethod: the CIMObject header starts with `namespace:classname` of the body's target (the keybinding
     part of the header is produced from the same keybindings by `pathUri`; it is compared by the oracle) -/
